@@ -107,7 +107,8 @@ func Setup(mgr ctrl.Manager, o controller.Options) error {
 	if o.AllowClusterRole == "" {
 		r := NewReconciler(mgr,
 			WithLogger(o.Logger.WithValues("controller", name)),
-			WithRecorder(event.NewAPIRecorder(mgr.GetEventRecorderFor(name))))
+			WithRecorder(event.NewAPIRecorder(mgr.GetEventRecorderFor(name))),
+			WithOrgDiffer(OrgDiffer{DefaultRegistry: o.DefaultRegistry}))
 
 		return ctrl.NewControllerManagedBy(mgr).
 			Named(name).
